@@ -226,4 +226,98 @@ theorem firstObs_iff (ix : List Int) (c : Col) (t : Int) (v : Int) :
             intro j s' w hj hjs hle
             simpa using h4 (j + 1) s' w (by omega) (by simpa using hjs) hle
 
+/-! ### the as-of join of a column onto ITS OWN index is the plain forward / backward fill (ties C03 to C12's `ffill` / `bfill`) -/
+
+theorem lastObs_cons_of_lt (x : Int) (xs : List Int) (v : Option Int) (vs : Col) (t : Int) (h : x < t) :
+    lastObs (x :: xs) (v :: vs) t = (lastObs xs vs t).or v := by
+  simp only [lastObs]
+  cases lastObs xs vs t <;> simp [Int.le_of_lt h]
+
+/-- a column forward-filled WITHOUT limit is, label by label over its own strictly increasing index, the last non-NaN
+observation at or before the label (`lastObs`), `last` standing in for what came before the column -/
+theorem ffillAux_eq_lastObs (ix : List Int) (c : Col) (last : Option Int) (k : Nat) (hs : SortedL ix) (hl : c.length = ix.length) :
+    ffillAux Option.none last k c = ix.map fun t => (lastObs ix c t).or last := by
+  induction ix generalizing c last k with
+  | nil => cases c <;> simp_all [ffillAux]
+  | cons x xs ih =>
+    cases c with
+    | nil => simp at hl
+    | cons v vs =>
+      have hs' : SortedL xs := (List.pairwise_cons.mp hs).2
+      have hx : ∀ s ∈ xs, x < s := (List.pairwise_cons.mp hs).1
+      have hl' : vs.length = xs.length := by simpa using hl
+      have h0 : lastObs xs vs x = Option.none := lastObs_none_of_gt xs vs x hx
+      cases v with
+      | none =>
+        simp only [ffillAux, within, List.map_cons, if_true]
+        congr 1
+        · simp [lastObs, h0]
+        · rw [ih vs last (k + 1) hs' hl']
+          apply List.map_congr_left
+          intro t ht
+          rw [lastObs_cons_of_lt x xs _ vs t (hx t ht)]; simp
+      | some a =>
+        simp only [ffillAux, List.map_cons]
+        congr 1
+        · simp [lastObs, h0]
+        · rw [ih vs (some a) 0 hs' hl']
+          apply List.map_congr_left
+          intro t ht
+          rw [lastObs_cons_of_lt x xs _ vs t (hx t ht)]
+          cases lastObs xs vs t <;> simp
+
+theorem ffill_eq_lastObs (ix : List Int) (c : Col) (hs : SortedL ix) (hl : c.length = ix.length) :
+    ix.map (lastObs ix c) = ffill Option.none c := by
+  unfold ffill
+  rw [ffillAux_eq_lastObs ix c Option.none 0 hs hl]
+  apply List.map_congr_left; intro t _; simp
+
+
+theorem lastObs_append (a : List Int) (b : Col) (x : Int) (v : Option Int) (t : Int) (hl : b.length = a.length) :
+    lastObs (a ++ [x]) (b ++ [v]) t = if x ≤ t ∧ v.isSome = true then v else lastObs a b t := by
+  induction a generalizing b with
+  | nil =>
+    cases b with
+    | nil => cases v <;> simp [lastObs]
+    | cons _ _ => simp at hl
+  | cons y a ih =>
+    cases b with
+    | nil => simp at hl
+    | cons w b =>
+      have hl' : b.length = a.length := by simpa using hl
+      simp only [List.cons_append, lastObs, ih b hl']
+      by_cases hc : x ≤ t ∧ v.isSome = true
+      · rw [if_pos hc, if_pos hc]
+        obtain ⟨u, rfl⟩ := Option.isSome_iff_exists.mp hc.2
+        rfl
+      · rw [if_neg hc, if_neg hc]
+
+theorem firstObs_eq_lastObs_rev (ix : List Int) (c : Col) (t : Int) (hl : c.length = ix.length) :
+    firstObs ix c t = lastObs (ix.reverse.map fun s => -s) c.reverse (-t) := by
+  induction ix generalizing c with
+  | nil => cases c <;> simp [firstObs, lastObs]
+  | cons x xs ih =>
+    cases c with
+    | nil => simp at hl
+    | cons v vs =>
+      have hl' : vs.length = xs.length := by simpa using hl
+      simp only [List.reverse_cons, List.map_append, List.map_cons, List.map_nil]
+      rw [lastObs_append _ _ _ _ _ (by simp [hl']), ← ih vs hl']
+      simp only [firstObs]
+      have : (-x ≤ -t) ↔ t ≤ x := by omega
+      simp only [this]
+
+theorem bfill_eq_firstObs (ix : List Int) (c : Col) (hs : SortedL ix) (hl : c.length = ix.length) :
+    ix.map (firstObs ix c) = bfill Option.none c := by
+  have hs' : SortedL (ix.reverse.map fun s => -s) := by
+    unfold SortedL at *
+    rw [List.pairwise_map, List.pairwise_reverse]
+    exact hs.imp (by intro a b h; omega)
+  unfold bfill
+  rw [← ffill_eq_lastObs (ix.reverse.map fun s => -s) c.reverse hs' (by simp [hl])]
+  rw [← List.map_reverse, ← List.map_reverse, List.reverse_reverse, List.map_map]
+  apply List.map_congr_left
+  intro t _
+  simp [firstObs_eq_lastObs_rev ix c t hl]
+
 end Pyg.Align
